@@ -5,6 +5,6 @@ LEAN_MODULES = _auto.lean_modules("C05")
 VARIANTS = ['default']
 RULE = 'key classes (random, all-ones, r in {0,1,2}, s all-ones, unclamped r) x every length 0..=80 x chunkings, RFC 8439 A.3 wrap-around vectors, model-guided messages whose accumulator lands in [p,2^130), random to 4 KiB; non-trivial = non-empty message; distinct = distinct case lines'
 TRUSTED = ["hand-written Lean models (lean/CxVerif/Impl, Spec) tied to the code by the correspondence run and by tables re-extracted from /repo/src"]
-ASSUMPTIONS = []
+ASSUMPTIONS = ['message length per call and in total < 2^64 bytes (usize)']
 gen = _auto.make_gen("C05")
 nontrivial = _auto.default_nontrivial
